@@ -552,7 +552,8 @@ class TileGrid(object):
           <generator object ...>)
         """
         # remove 1/10 of a pixel so we don't get a tiles we only touch
-        delta = self.resolutions[level] / 10.0
+        # (of the bbox itself where it is smaller than a pixel: the corners must not change sides)
+        delta = min(self.resolutions[level], bbox[2] - bbox[0], bbox[3] - bbox[1]) / 10.0
         x0, y0, _ = self.tile(bbox[0]+delta, bbox[1]+delta, level)
         x1, y1, _ = self.tile(bbox[2]-delta, bbox[3]-delta, level)
         try:
@@ -970,7 +971,8 @@ class MetaGrid(object):
         """
 
         # remove 1/10 of a pixel so we don't get a tiles we only touch
-        delta = self.grid.resolutions[level] / 10.0
+        # (of the bbox itself where it is smaller than a pixel: the corners must not change sides)
+        delta = min(self.grid.resolutions[level], bbox[2] - bbox[0], bbox[3] - bbox[1]) / 10.0
         x0, y0, _ = self.grid.tile(bbox[0]+delta, bbox[1]+delta, level)
         x1, y1, _ = self.grid.tile(bbox[2]-delta, bbox[3]-delta, level)
 
